@@ -2,6 +2,8 @@ package main
 
 import (
 	"fmt"
+	"os"
+	"runtime/debug"
 	"sort"
 	"strings"
 
@@ -131,6 +133,9 @@ func withRecover(f func()) (panicked bool, msg string) {
 		if e := recover(); e != nil {
 			panicked = true
 			msg = fmt.Sprint(e)
+			if os.Getenv("VERIF_STACK") != "" {
+				fmt.Fprintf(os.Stderr, "PANIC %v\n%s\n", e, debug.Stack())
+			}
 		}
 	}()
 	f()
